@@ -78,6 +78,28 @@ namespace occa {
     return out;
   }
 
+  // Strings and object keys share one escaper
+  static void dumpQuotedString(std::string &out,
+                               const std::string &str) {
+    out += '"';
+    const int chars = (int) str.size();
+    for (int i = 0; i < chars; ++i) {
+      const char c = str[i];
+      switch (c) {
+      case '"' : out += "\\\"";  break;
+      case '\\': out += "\\\\";  break;
+      case '\b': out += "\\b";  break;
+      case '\f': out += "\\f";  break;
+      case '\n': out += "\\n";  break;
+      case '\r': out += "\\r";  break;
+      case '\t': out += "\\t";  break;
+      default:
+        out += c;
+      }
+    }
+    out += '"';
+  }
+
   void json::dumpToString(std::string &out,
                           const std::string &indent,
                           const std::string &currentIndent) const {
@@ -94,23 +116,7 @@ namespace occa {
       break;
     }
     case string_: {
-      out += '"';
-      const int chars = (int) value_.string.size();
-      for (int i = 0; i < chars; ++i) {
-        const char c = value_.string[i];
-        switch (c) {
-        case '"' : out += "\\\"";  break;
-        case '\\': out += "\\\\";  break;
-        case '\b': out += "\\b";  break;
-        case '\f': out += "\\f";  break;
-        case '\n': out += "\\n";  break;
-        case '\r': out += "\\r";  break;
-        case '\t': out += "\\t";  break;
-        default:
-          out += c;
-        }
-      }
-      out += '"';
+      dumpQuotedString(out, value_.string);
       break;
     }
     case array_: {
@@ -156,9 +162,8 @@ namespace occa {
           const json &value = it->second;
 
           out += newIndent;
-          out += '"';
-          out += key;
-          out += "\": ";
+          dumpQuotedString(out, key);
+          out += ": ";
           if (value.type != none_) {
             value.dumpToString(out, indent, newIndent);
           } else {
